@@ -1,5 +1,6 @@
 (* C04 — Commutation reports are sound for every operation pair and target. *)
-From DR Require Import Model.CommuteSpec Proofs.SemLaws Proofs.CommuteLaws.
+From DR Require Import Model.CommuteSpec Proofs.SemLaws Proofs.CommuteLaws Proofs.JoinCommute.
+From Coq Require Import Permutation.
 
 (* For every pair of unary operations (all six concrete types, all parameters), every target
    relation and every list of target rows: if commute reports a move, both reported operations
@@ -19,6 +20,30 @@ Theorem C04_failed_commute_hands_back_current : forall new cur tcols,
   c_first (commute new cur tcols) = None ->
   c_second (commute new cur tcols) = cur /\ c_done (commute new cur tcols) = false.
 Proof. exact commute_fail_shape. Qed.
+
+(* Requests that are joins with a fixed operand (PartialJoin, the fixed operand on either side), every existing
+   operation, every predicate and set of common columns, every fixed tree and every target: a reported move is
+   well-formed and yields exactly the rows, in order, of the existing operation followed by the join — except that with
+   the fixed operand on the LEFT and an existing Sort the two sides are equal as multisets only (the join lists the
+   fixed operand's rows in its outer loop, which no sort of the other operand restores).  `consistent` is the documented
+   ColumnTag contract: rows that match on the common columns agree on every other column the operands share.
+   The Projection case needs `(tcols ∖ cs) ∩ columns fixed = ∅`: that is what commit 62e461e (finding F22) added to
+   PartialJoin.commute, and what `commute` checks. *)
+Theorem C04_join_commute_sound : forall env j f lhs cur tcols (l : rows),
+  rows_dom tcols l -> op_wf cur tcols -> req_wf env (RJoin j f lhs) (op_columns cur tcols) ->
+  consistent (j_min j) l (sem_tree env f) ->
+  commutator_sound_upto (if lhs && is_reordering cur then Permutation else eq)
+    env (RJoin j f lhs) cur tcols (commute (RJoin j f lhs) cur tcols) l.
+Proof. exact commute_sound_join. Qed.
+
+(* F22 as it was: moving F ⋈ · past a projection that hides a column F also has changes the rows *)
+Example C04_join_past_hiding_projection_refuted :
+  let F := [mkrow [(2%positive, 0%Z); (6%positive, 7%Z)]] in
+  let l := [mkrow [(2%positive, 0%Z); (6%positive, 5%Z)]] in
+  let cs := mkset [2%positive] in
+  rows_eqb (sem_proj (cs ∪ mkset [2; 6]%positive) (sem_join cs (PLit true) F l))
+           (sem_join cs (PLit true) F (sem_proj cs l)) = false.
+Proof. vm_compute. reflexivity. Qed.
 
 (* the excluded case is really unsound on the pinned tree: witness *)
 Example C04_projection_past_deduplication_refuted :
